@@ -725,17 +725,21 @@ Proof.
     specialize (IH g2 r2 H2). destruct (g_run fuel g2 cs) as [g3 rs]. simpl in *. exact IH.
 Qed.
 
+Definition closedC {C} (T : C -> option (fdef C)) (l : list C) : Prop := Forall (fun f => T f <> None) l.
+
 Section Ext.
-  Variables T T' : N -> option (fdef N).
+  Context {C : Type}.
+  Variables T T' : C -> option (fdef C).
   Hypothesis Hsub : forall f, T f <> None -> T' f = T f.
-  Hypothesis Hclosed : forall f d, T f = Some d -> closed_names T (fnames_d d).
+  Hypothesis Hclosed : forall f d, T f = Some d -> closedC T (fnames_d d).
 
   Section E.
-    Variables callT callT' : mem -> N -> Z -> mem * Z.
+    Variables callT callT' : mem -> C -> Z -> mem * Z.
     Hypothesis Hcall : forall m f v, T f <> None -> callT' m f v = callT m f v.
 
-    Lemma ev_ext e : forall m a, closed_names T (fnames_e e) -> ev callT' m a e = ev callT m a e.
+    Lemma ev_ext e : forall m a, closedC T (fnames_e e) -> ev callT' m a e = ev callT m a e.
     Proof.
+      unfold closedC.
       induction e as [z|x| |e1 IH1 e2 IH2|e1 IH1 e2 IH2|e1 IH1 e2 IH2|c e1 IH1|p]; intros m a Hc; simpl in *; try reflexivity.
       - apply Forall_app in Hc as [H1 H2]. rewrite IH1 by assumption. destruct (ev callT m a e1) as [m1 v1]. now rewrite IH2.
       - apply Forall_app in Hc as [H1 H2]. rewrite IH1 by assumption. destruct (ev callT m a e1) as [m1 v1]. now rewrite IH2.
@@ -743,11 +747,12 @@ Section Ext.
       - inversion Hc as [|? ? H0 H1]; subst. rewrite IH1 by assumption. destruct (ev callT m a e1) as [m1 v1]. apply Hcall, H0.
     Qed.
 
-    Lemma ex_ext s m a : closed_names T (fnames_s s) -> ex callT' m a s = ex callT m a s.
+    Lemma ex_ext s m a : closedC T (fnames_s s) -> ex callT' m a s = ex callT m a s.
     Proof. destruct s; intros Hc; simpl in *; try reflexivity; now rewrite ev_ext. Qed.
 
-    Lemma exl_ext l : forall m a r, closed_names T (flat_map fnames_s l) -> exl callT' m a r l = exl callT m a r l.
+    Lemma exl_ext l : forall m a r, closedC T (flat_map fnames_s l) -> exl callT' m a r l = exl callT m a r l.
     Proof.
+      unfold closedC.
       induction l as [|s l IH]; intros m a r Hc; [reflexivity|]. simpl in *. apply Forall_app in Hc as [H1 H2].
       rewrite ex_ext by assumption. destruct (ex callT m a s) as [m1 r1]. now apply IH.
     Qed.
@@ -757,7 +762,7 @@ Section Ext.
   Proof.
     induction n as [|n IH]; intros m f v Hf; [reflexivity|]. simpl. rewrite (Hsub f Hf).
     destruct (T f) as [[body ret]|] eqn:ET; [|congruence].
-    specialize (Hclosed f _ ET). unfold fnames_d in Hclosed. simpl in Hclosed. apply Forall_app in Hclosed as [Hb Hr].
+    specialize (Hclosed f _ ET). unfold fnames_d, closedC in Hclosed. simpl in Hclosed. apply Forall_app in Hclosed as [Hb Hr].
     rewrite (exl_ext _ _ IH body m v None Hb). destruct (exl (call_n T n) m v None body) as [m1 r1].
     apply (ev_ext _ _ IH ret m1 v Hr).
   Qed.
@@ -992,6 +997,200 @@ Proof.
     destruct (y_eval fuel s c) as [s1 r1]. rewrite IH. reflexivity. }
   intros cs s. repeat split; try apply H. 
 Qed.
+
+(* ------------------------------------------------------------------ *)
+(** * Compile every chunk first, execute afterwards *)
+
+Definition cclosed (cd : list (fdef nat)) : Prop :=
+  forall k d, nth_error cd k = Some d -> closedC (nth_error cd) (fnames_d d).
+
+Definition wf (s : ystate) : Prop :=
+  cclosed (code s) /\ (forall f k, alookup (fscope s) f = Some k -> (k < length (code s))%nat).
+
+Definition wfp (cd : list (fdef nat)) (p : program) : Prop :=
+  closedC (nth_error cd) (flat_map fnames_s (p_stmts p))
+  /\ Forall (fun xe : N * expr nat => closedC (nth_error cd) (fnames_e (snd xe))) (p_inits p)
+  /\ (forall k, p_main p = Some k -> nth_error cd k <> None).
+
+Section Range.
+  Variable rho : N -> option nat.
+  Definition in_range (l : list nat) : Prop := Forall (fun k => exists f, rho f = Some k) l.
+
+  Lemma res_e_range e : forall re, res_e rho e = Some re -> in_range (fnames_e re).
+  Proof.
+    unfold in_range.
+    induction e as [z|x| |e1 IH1 e2 IH2|e1 IH1 e2 IH2|e1 IH1 e2 IH2|c e1 IH1|p]; intros re Hr; simpl in Hr;
+      try (inversion Hr; subst; constructor).
+    - destruct (res_e rho e1) as [r1|]; [|discriminate]. destruct (res_e rho e2) as [r2|]; [|discriminate].
+      inversion Hr; subst. simpl. apply Forall_app. split; [apply IH1|apply IH2]; reflexivity.
+    - destruct (res_e rho e1) as [r1|]; [|discriminate]. destruct (res_e rho e2) as [r2|]; [|discriminate].
+      inversion Hr; subst. simpl. apply Forall_app. split; [apply IH1|apply IH2]; reflexivity.
+    - destruct (res_e rho e1) as [r1|]; [|discriminate]. destruct (res_e rho e2) as [r2|]; [|discriminate].
+      inversion Hr; subst. simpl. apply Forall_app. split; [apply IH1|apply IH2]; reflexivity.
+    - destruct (rho c) as [k|] eqn:Ek; [|discriminate]. destruct (res_e rho e1) as [r1|]; [|discriminate].
+      inversion Hr; subst. simpl. constructor; [exists c; exact Ek|apply IH1; reflexivity].
+  Qed.
+
+  Lemma res_s_range s : forall rs, res_s rho s = Some rs -> in_range (fnames_s rs).
+  Proof.
+    destruct s as [x e|p x|p e|e|e]; intros rs Hr; simpl in Hr;
+      try (destruct (res_e rho e) as [r|] eqn:E; [|discriminate]; inversion Hr; subst; simpl; apply (res_e_range e r E)).
+    inversion Hr; subst. constructor.
+  Qed.
+
+  Lemma res_l_range l : forall rl, res_l rho l = Some rl -> in_range (flat_map fnames_s rl).
+  Proof.
+    induction l as [|s l IH]; intros rl Hr; simpl in Hr; [inversion Hr; constructor|].
+    destruct (res_s rho s) as [rs|] eqn:Es; [|discriminate]. destruct (res_l rho l) as [rl'|] eqn:El; [|discriminate].
+    inversion Hr; subst. simpl. apply Forall_app. split; [apply (res_s_range s rs Es)|apply IH; reflexivity].
+  Qed.
+
+  Lemma res_d_range d : forall rd, res_d rho d = Some rd -> in_range (fnames_d rd).
+  Proof.
+    intros rd Hr. unfold res_d in Hr.
+    destruct (res_l rho (fst d)) as [rb|] eqn:Eb; [|discriminate]. destruct (res_e rho (snd d)) as [rr|] eqn:Er; [|discriminate].
+    inversion Hr; subst. unfold fnames_d. simpl. apply Forall_app. split; [apply (res_l_range _ _ Eb)|apply (res_e_range _ _ Er)].
+  Qed.
+End Range.
+
+Lemma in_range_closed (rho : N -> option nat) (cd : list (fdef nat)) l :
+  (forall f k, rho f = Some k -> (k < length cd)%nat) -> in_range rho l -> closedC (nth_error cd) l.
+Proof.
+  intros Hb Hr. eapply Forall_impl; [|exact Hr]. intros k [f Hf]. apply nth_error_Some. apply (Hb f k Hf).
+Qed.
+
+Lemma closedC_app_code (cd extra : list (fdef nat)) l : closedC (nth_error cd) l -> closedC (nth_error (cd ++ extra)) l.
+Proof.
+  intros H. eapply Forall_impl; [|exact H]. intros k Hk. apply nth_error_Some. rewrite app_length.
+  apply nth_error_Some in Hk. lia.
+Qed.
+
+Lemma mapM_Forall {A B} (f : A -> option B) (P : B -> Prop) l :
+  (forall x y, In x l -> f x = Some y -> P y) -> forall r, mapM f l = Some r -> Forall P r.
+Proof.
+  induction l as [|x l IH]; intros HP r Hr; simpl in Hr; [inversion Hr; constructor|].
+  destruct (f x) as [y|] eqn:Ey; [|discriminate]. destruct (mapM f l) as [r'|] eqn:Er; [|discriminate].
+  inversion Hr; subst. constructor; [apply (HP x y); [left; reflexivity|exact Ey]|].
+  apply IH; [|reflexivity]. intros x' y' Hin. apply HP. right; exact Hin.
+Qed.
+
+(** what a compilation does to the state: it appends code, never touches the memory, keeps the state well-formed *)
+Lemma compile_facts s c s1 op r :
+  wf s -> y_compile s c = (s1, op, r) ->
+  (exists extra, code s1 = code s ++ extra) /\ ymem s1 = ymem s /\ wf s1
+  /\ (forall p, op = Some p -> wfp (code s1) p).
+Proof.
+  intros [Hcc Hsb] H. unfold y_compile in H.
+  destruct (forallb is_decl c) eqn:Ed.
+  - set (F := gta_f (length (code s)) (fscope s) (funcs c)) in *.
+    destruct (res_funcs (alookup F) (funcs c)) as [ds|] eqn:Eds; [|inversion H; subst; (split; [exists []; now rewrite app_nil_r|]); (split; [reflexivity|]); (split; [split; assumption|discriminate])].
+    destruct (res_inits (alookup F) (inits c)) as [ri|] eqn:Eri; [|inversion H; subst; (split; [exists []; now rewrite app_nil_r|]); (split; [reflexivity|]); (split; [split; assumption|discriminate])].
+    inversion H; subst; clear H. unfold wf, cclosed. cbn [code ymem fscope].
+    assert (HbF : forall f k, alookup F f = Some k -> (k < length (code s ++ ds))%nat).
+    { intros f k Hf. rewrite app_length. unfold res_funcs in Eds. rewrite (mapM_length _ _ _ Eds).
+      apply (gta_f_bound (funcs c) _ _ Hsb f k Hf). }
+    assert (Hds : Forall (fun d => closedC (nth_error (code s ++ ds)) (fnames_d d)) ds).
+    { unfold res_funcs in Eds. eapply mapM_Forall; [|exact Eds]. intros [f d] rd _ Hr. simpl in Hr.
+      apply (in_range_closed (alookup F)); [exact HbF|apply (res_d_range _ _ _ Hr)]. }
+    split; [exists ds; reflexivity|]. split; [reflexivity|]. split; [split|].
+    + intros k d Hk. destruct (Nat.lt_ge_cases k (length (code s))) as [Hlt|Hge].
+      * rewrite nth_error_app1 in Hk by exact Hlt. apply closedC_app_code. apply (Hcc k d Hk).
+      * rewrite nth_error_app2 in Hk by exact Hge. rewrite Forall_forall in Hds. apply Hds. eapply nth_error_In; exact Hk.
+    + exact HbF.
+    + intros p Hp. inversion Hp; subst; clear Hp. unfold wfp. cbn [p_stmts p_inits p_main]. split; [constructor|]. split.
+      * unfold res_inits in Eri. eapply mapM_Forall; [|exact Eri]. intros [x e] [x' e'] _ Hr. simpl in Hr.
+        destruct (res_e (alookup F) e) as [re|] eqn:Ee; [|discriminate]. inversion Hr; subst. simpl.
+        apply (in_range_closed (alookup F)); [exact HbF|apply (res_e_range _ _ _ Ee)].
+      * intros k Hk. apply nth_error_Some. apply (HbF _ _ Hk).
+  - destruct (forallb (fun i => negb (is_decl i)) c) eqn:Es.
+    + destruct (res_l (alookup (fscope s)) (stmts c)) as [ss|] eqn:Ess; [|inversion H; subst; (split; [exists []; now rewrite app_nil_r|]); (split; [reflexivity|]); (split; [split; assumption|discriminate])].
+      inversion H; subst; clear H. unfold wf. cbn [code ymem fscope].
+      split; [exists []; now rewrite app_nil_r|]. split; [reflexivity|]. split; [split; assumption|].
+      intros p Hp. inversion Hp; subst; clear Hp. unfold wfp. cbn [p_stmts p_inits p_main]. split; [|split; [constructor|]].
+      * apply (in_range_closed (alookup (fscope s))); [exact Hsb|apply (res_l_range _ _ _ Ess)].
+      * intros k Hk. apply nth_error_Some. apply (Hsb _ _ Hk).
+    + inversion H; subst. split; [exists []; now rewrite app_nil_r|]. split; [reflexivity|]. split; [split; assumption|discriminate].
+Qed.
+
+Lemma compile_with_mem s c m :
+  y_compile (with_mem s m) c = (let '(s1, p, r) := y_compile s c in (with_mem s1 m, p, r)).
+Proof.
+  unfold y_compile, with_mem. cbn [fscope vscope code epoch ymem].
+  destruct (forallb is_decl c).
+  - destruct (res_funcs _ (funcs c)); [|reflexivity]. destruct (res_inits _ (inits c)); reflexivity.
+  - destruct (forallb (fun i => negb (is_decl i)) c); [|reflexivity]. destruct (res_l _ (stmts c)); reflexivity.
+Qed.
+
+Lemma compile_all_with_mem cs : forall s m,
+  y_compile_all (with_mem s m) cs = (let '(s1, ps) := y_compile_all s cs in (with_mem s1 m, ps)).
+Proof.
+  induction cs as [|c r IH]; intros s m; [reflexivity|]. simpl. rewrite compile_with_mem.
+  destruct (y_compile s c) as [[s1 p] r1]. rewrite IH. destruct (y_compile_all s1 r) as [s2 ps]. reflexivity.
+Qed.
+
+Lemma compile_all_facts cs : forall s s2 ps, wf s -> y_compile_all s cs = (s2, ps) ->
+  (exists extra, code s2 = code s ++ extra) /\ ymem s2 = ymem s.
+Proof.
+  induction cs as [|c r IH]; intros s s2 ps Hwf H; simpl in H.
+  - inversion H; subst. split; [exists []; now rewrite app_nil_r|reflexivity].
+  - destruct (y_compile s c) as [[s1 p] r1] eqn:Ec. destruct (y_compile_all s1 r) as [s3 ps'] eqn:Ea. inversion H; subst.
+    destruct (compile_facts s c s1 p r1 Hwf Ec) as [[e1 He1] [Hm1 [Hwf1 _]]].
+    destruct (IH s1 s2 ps' Hwf1 Ea) as [[e2 He2] Hm2]. split; [exists (e1 ++ e2); rewrite He2, He1, app_assoc; reflexivity|congruence].
+Qed.
+
+Lemma run_inits_ext {C} (callT callT' : mem -> C -> Z -> mem * Z) (T : C -> option (fdef C)) :
+  (forall m f v, T f <> None -> callT' m f v = callT m f v) ->
+  forall l m, Forall (fun xe : N * expr C => closedC T (fnames_e (snd xe))) l -> run_inits callT' m l = run_inits callT m l.
+Proof.
+  intros Hcall. induction l as [|[x e] l IH]; intros m H; [reflexivity|]. inversion H as [|? ? H1 H2]; subst. simpl in *.
+  rewrite (ev_ext T callT callT' Hcall e m 0%Z H1). destruct (ev callT m 0%Z e) as [m1 v]. apply IH, H2.
+Qed.
+
+(** executing a program does not depend on code compiled later *)
+Lemma execute_ext fuel s s' p extra :
+  code s' = code s ++ extra -> ymem s' = ymem s -> cclosed (code s) -> wfp (code s) p ->
+  exists m res, y_execute fuel s p = (with_mem s m, res) /\ y_execute fuel s' p = (with_mem s' m, res).
+Proof.
+  intros Hc Hm Hcc [Hw1 [Hw2 Hw3]]. unfold y_execute. rewrite Hc, Hm.
+  set (T := nth_error (code s)). set (T' := nth_error (code s ++ extra)).
+  assert (Hsub : forall k, T k <> None -> T' k = T k).
+  { intros k Hk. unfold T, T'. apply nth_error_app1. apply nth_error_Some. exact Hk. }
+  pose proof (call_ext T T' Hsub Hcc fuel) as Hcall.
+  rewrite (exl_ext T _ _ Hcall (p_stmts p) (ymem s) 0%Z None Hw1).
+  destruct (exl (call_n T fuel) (ymem s) 0%Z None (p_stmts p)) as [m1 r].
+  destruct (p_loop p); [eexists _, _; split; reflexivity|].
+  rewrite (run_inits_ext _ _ T Hcall (p_inits p) m1 Hw2).
+  destruct (p_main p) as [k|] eqn:Ek; [|eexists _, _; split; reflexivity].
+  unfold run_body. rewrite (Hsub k (Hw3 k eq_refl)).
+  destruct (T k) as [[body ret]|] eqn:ETk; [|eexists _, _; split; reflexivity].
+  pose proof (Hcc k _ ETk) as Hb. unfold fnames_d, closedC in Hb. simpl in Hb. apply Forall_app in Hb as [Hb _].
+  rewrite (exl_ext T _ _ Hcall body _ 0%Z None Hb). eexists _, _; split; reflexivity.
+Qed.
+
+Lemma wf_with_mem s m : wf s -> wf (with_mem s m).
+Proof. intros H. exact H. Qed.
+
+(** Compile-all-then-Execute-all gives the same final state and the same results as evaluating chunk by chunk *)
+Theorem compile_all_first fuel : forall cs s, wf s -> y_run_call fuel s cs = y_run fuel s cs.
+Proof.
+  induction cs as [|c r IH]; intros s Hwf; [reflexivity|].
+  unfold y_run_call. simpl. unfold y_eval.
+  destruct (y_compile s c) as [[s1 op] r0] eqn:Ec.
+  destruct (compile_facts s c s1 op r0 Hwf Ec) as [_ [_ [Hwf1 Hwfp]]].
+  destruct (y_compile_all s1 r) as [s2 ps] eqn:Ea.
+  destruct (compile_all_facts r s1 s2 ps Hwf1 Ea) as [[extra He] Hm2].
+  destruct op as [p|].
+  - destruct (execute_ext fuel s1 s2 p extra He Hm2 (proj1 Hwf1) (Hwfp p eq_refl)) as [m [res [E1 E2]]].
+    cbn [y_execute_all]. rewrite E1, E2. rewrite <- (IH (with_mem s1 m) (wf_with_mem s1 m Hwf1)).
+    unfold y_run_call. rewrite compile_all_with_mem, Ea. reflexivity.
+  - cbn [y_execute_all]. rewrite <- (IH s1 Hwf1). unfold y_run_call. rewrite Ea. reflexivity.
+Qed.
+
+Lemma wf0 : wf y0.
+Proof. split; [intros k d H; destruct k; discriminate|intros f k H; discriminate]. Qed.
+
+Theorem compile_all_first0 fuel cs : y_run_call fuel y0 cs = y_run fuel y0 cs.
+Proof. apply compile_all_first, wf0. Qed.
 
 (* ------------------------------------------------------------------ *)
 (** * Redefinition *)
